@@ -3,6 +3,7 @@ package main
 import (
 	"fmt"
 	"go/types"
+	"os"
 	"strings"
 
 	"golang.org/x/tools/go/ssa"
@@ -29,6 +30,7 @@ func (eng *Engine) verifyContract(ct *Contract) (res *FuncResult) {
 				res.Obls = vc.obls
 				return
 			}
+			fmt.Fprintf(os.Stderr, "internal error while verifying %s\n", ct.FullKey())
 			panic(r)
 		}
 	}()
@@ -41,6 +43,10 @@ func (eng *Engine) verifyContract(ct *Contract) (res *FuncResult) {
 	}
 	if ct.Trusted {
 		return
+	}
+	if ct.NoSafety {
+		vc.noSafety = true
+		vc.trust("contract " + ct.FullKey() + " is checked without safety obligations (nosafety): absence of panics in it is assumed")
 	}
 	if eng.loopInfo(fn).rpo == nil {
 		panic(unsupported("irreducible control flow in " + fn.String()))
